@@ -9,8 +9,7 @@
   to the log and answers what the oracle `HRes` of the current operation says.  `.logReply` is the library's
   placeholder handler of a freshly reserved slot.
   Not modelled: the fallback reply context `_ctx` (always NULL here), the built-in `unknownEvent` fallback
-  (the harness installs its own or none), fragmented messages, the quoting tokenizer of mpt_message_argv
-  (separator neither 0 nor a graphic character), allocation failure, mpt++/event.cpp.
+  (the harness installs its own or none), fragmented messages, allocation failure, mpt++/event.cpp.
 -/
 import MptModel.Spec.Dispatch
 namespace Mpt.Dispatch
@@ -204,8 +203,31 @@ def nextChar (data : List Byte) (tok : Byte) : Nat :=
   | some i => i
   | none => data.length
 
-/-- `mpt_message_argv(msg, sep)` for `sep = 0` or a graphic `sep`: the message data afterwards (leading white
-    space consumed for `sep ≠ 0`) and the returned length; `none` = MissingData (no data) -/
+/-- token set `"\t \n\r\v"` of the argument tokenizer (form feed is white space for `isspace` but no token) -/
+def isTokWs (c : Byte) : Bool := c == 0x09 || c == 0x20 || c == 0x0a || c == 0x0d || c == 0x0b
+/-- escape set `"'\""` -/
+def isQuote (c : Byte) : Bool := c == 0x27 || c == 0x22
+
+/-- `mpt_memtok(&part, 1, "\t \n\r\v", NULL, "'\"")` on one part: position of the first token byte outside quotes
+    (`m` = open quote character or 0, `prev` = previous byte, a backslash keeps the quote open); `none` = -2 -/
+def memtokGo : List Byte → Nat → Byte → Byte → Option Nat
+  | [], _, _, _ => none
+  | c :: rest, pos, m, prev =>
+    if m ≠ 0 then memtokGo rest (pos + 1) (if c == m && prev != 0x5c then 0 else m) c
+    else if isQuote c then memtokGo rest (pos + 1) c prev
+    else if isTokWs c then some pos
+    else memtokGo rest (pos + 1) 0 c
+def memtok (data : List Byte) : Option Nat := memtokGo data 0 0 0x20
+
+/-- length of the first argument for white-space separation: "find space character not in escapes",
+    else "check for termination" with `sep = 0` -/
+def argWs (data : List Byte) : Nat :=
+  match memtok data with
+  | some p => p
+  | none => nextChar data 0
+
+/-- `mpt_message_argv(msg, sep)` on one contiguous part: the message data afterwards (leading white space consumed
+    for `sep ≠ 0`) and the returned length; `none` = MissingData (no data) -/
 def messageArgv (data : List Byte) (sep : Byte) : Option (List Byte × Nat) :=
   if data.isEmpty then none
   else if sep = 0 then some (data, nextChar data 0)
@@ -214,42 +236,34 @@ def messageArgv (data : List Byte) (sep : Byte) : Option (List Byte × Nat) :=
     let data1 := match data.findIdx? (fun c => !isSpace c) with
       | some p => data.drop p
       | none => data
-    some (data1, nextChar data1 sep)
+    if isGraph sep then some (data1, nextChar data1 sep)
+    else some (data1, argWs data1)
 
 /- ---------- dispatch_hash.c ---------- -/
-/-- the id computed by `mpt_dispatch_hash` for a message; `.error` = one of the `MPT_event_fail` exits before any
-    handler is looked up; `.fault` = separator outside the modelled domain -/
+/-- the id computed by `mpt_dispatch_hash` for a message; `.fail` = one of the `MPT_event_fail` exits before any
+    handler is looked up -/
 inductive HashId where
   | id (v : Id)
   | fail
-  | unmodelled
   deriving DecidableEq, Repr
 
 def hashId (msg : List Byte) : HashId :=
   match msg with
   | ty :: arg :: payload =>
     let sep : Byte := if ty = msgCommand then arg else 0
-    if sep ≠ 0 ∧ !isGraph sep then .unmodelled
-    else match messageArgv payload sep with
-      | none => .fail                          -- unable to get text command
-      | some (base, len) =>
-        if len = 0 then .fail
-        else
-          -- continuous data: drop a terminating zero that was counted
-          let len := if sep = 0 ∧ base[len - 1]? = some 0 then len - 1 else len
-          .id (mptHash (base.take len))
+    match messageArgv payload sep with
+    | none => .fail                          -- unable to get text command
+    | some (base, len) =>
+      if len = 0 then .fail
+      else
+        -- continuous data: drop a terminating zero that was counted
+        let len := if sep = 0 ∧ base[len - 1]? = some 0 then len - 1 else len
+        .id (mptHash (base.take len))
   | _ => .fail                                 -- missing message header / type
-
-/-- the modelled domain of command messages: the separator is 0 or a graphic character -/
-def hashInDomain (msg : List Byte) : Bool :=
-  match msg with
-  | ty :: arg :: _ => !(ty == msgCommand && arg != 0 && !isGraph arg)
-  | _ => true
 
 /-- `mpt_dispatch_hash(disp, ev)` with a message -/
 def dispatchHash (d : Disp) (msg : List Byte) (res : HRes) : Out :=
   match hashId msg with
-  | .unmodelled => ⟨.fault, []⟩
   | .fail => ⟨.val failDefault, []⟩
   | .id id =>
     match commandGet d.tab id with
@@ -418,11 +432,6 @@ def step (s : St) (op : Op) : St × Out :=
   | .fini =>
     let r := dispatchFini s.d
     ({ s with d := r.1 }, ⟨.val 0, r.2⟩)
-
-/-- operations inside the modelled domain -/
-def inDomain : Op → Bool
-  | .hash msg _ => hashInDomain msg
-  | _ => true
 
 /-- state after a history and the outcomes it produced -/
 def runFrom (s : St) : List Op → St × List (Op × Out)
